@@ -2,6 +2,9 @@
 
 Proof: coq/props/C20.v (fold invariant of the scan over any list of values; the loop's assignments
 are a duplicate-free enumeration of all bit vectors; structural metrics).
+Generated model: harness/translate_report.py prints the body of QUBOContainer.report of the tree under test as
+coq/gen/ReportGen.v on every run; coq/genprops/C20_gen.v proves it equal to Report.scan_step / scan / report
+and restates the headline theorem for the generated function (obligations of this property).
 Tie: QUBOContainer(M, c, pattern).report(obj_stats, tol) of the real code vs Report.report inside Coq.
 Oracle: itertools.product enumeration with Fractions on the implementation's output.
 
@@ -303,6 +306,10 @@ def shrink(case):
 
 def run(ctx):
     ctx.prove()
+    import translate_report as T
+    ctx.gen_step("report", T.translate, "C20_gen",
+                 "harness/translate_report.py (ast -> Gallina printer for QUBOContainer.report: let-chains, if/elif chains, "
+                 "`for v in range(a, b)` with a generated body, result-dictionary assignments; combinators in coq/theories/PyReport.v)")
     rng = ctx.rng
     n_random = 500 if ctx.quick else 9000
     cases = gen_cases(rng, n_random)
